@@ -27,12 +27,35 @@ slot functions at top level, in every form and with every doc string kind; editi
 whole file + reload ('drop_file', restored by a later 'reload_ctx') and unload + set-up (file-level declarations come
 back) are lifecycle ops like the run-time ones.  The file's own services life_<ctx> / out_<ctx> are judged too.
 
+Definitions through a module: a script file may import a module of its own (modules/ma.py for ca.py ...); its life_<ctx>
+service then has a second route ('via': 'mod') that calls the module's function life(), which defines / deletes the
+slot functions in the MODULE's global context while the calling evaluation belongs to the file's context.  The module
+is a context of its own in the reference model ('ma'): its default names collide with the files' (ownership), it stays
+loaded when the importing file is edited + reloaded or deleted (only changed files and their importers are reloaded),
+and an edit of the module reloads it and its importer.
+
+Several declarers of one name: the form 'shared' gives both slot functions of a context the same explicit name, at run
+time and (both at once) at file level.  The name exists while at least one of them is live and calling it runs the one
+that was defined last (for file-level declarations: the one further down in the file).
+
+Closely spaced lifecycle ops: 'reload_racing' is an edit + reload (waited for) followed 0-10 ms later by the next edit +
+reload, an unload, the deletion of the file or an outgoing call; cfg["svc_desc_delays_ms"] (seam of this module) makes
+Home Assistant's description loader, as pyscript calls it, take the k-th of a list of pauses for its k-th call, so the
+start pass of the reloaded file (one start-up per decorated function) can still be suspended when the next op arrives,
+and an outgoing call can be made while another task is refreshing the descriptions (also 'define_racing' + 'out').
+
+'pre': in the same call of life(), before the definition, the script defines a function whose user decorator raises and
+catches the exception.  At the end of every run the integration is unloaded and everything must be gone.
+
 Findings of the unchanged code have their own violation classes (the run ends at the first of them, its
 consequences are not judged) and a 'steer' coin keeps half of the runs away from their constructs:
 C12.leak_after_description_failure (legacy: a definition that fails after its name was registered leaves it registered),
 C12.file_level_name_redefined_at_run_time (default subsystem: owner recorded under the function's context name),
 C12.handler_of_refused_definition_kept, C12.name_differing_in_case (both: bookkeeping keyed by the raw spelling),
-C12.name_given_twice_released_once (legacy).
+C12.name_given_twice_released_once (legacy), C12.handler_of_removed_declarer_kept (both: the latest declarer of a shared
+name is removed, Home Assistant keeps its handler; same root as C09-K2), C12.older_declarer_of_shared_name_ran (default
+subsystem, file level: start pass in set order), C12.definition_after_failed_decorator_not_registered (both),
+C12.outgoing_data_field_named_limit, C12.entity_method_call_lost_during_description_refresh (entity-method calls).
 
 Oracle: a reference model of declared names, owners and latest generations.  Concurrent definitions/deletions of one
 slot are put in the order in which the script reported them done (marks 'life'), a definition whose context was
@@ -54,7 +77,7 @@ from ..world import World
 PROPERTY = "C12"
 LEVEL = "exploration"
 RULE = (
-    "seeded generation of <=18 lifecycle ops (define/redefine in 8 declaration forms, delete, reload, unload, setup) over "
+    "seeded generation of <=18 lifecycle ops (define/redefine in 9 declaration forms, delete, reload, unload, setup) over "
     "2 slots x 1-3 contexts, service calls with generated data after every op and in flight during ops, definitions "
     "still in progress (0-25 ms old, start-up suspended 0/2/8 ms in the service-description refresh) when their script "
     "is reloaded / the integration unloaded / the slot deleted or defined again, and outgoing calls in 4 call forms, "
@@ -62,10 +85,18 @@ RULE = (
     "kinds (none / text / yaml mapping / yaml empty / yaml that is plain text / yaml that is a list / yaml that does "
     "not parse, 2-3 texts each) or, instead, @state_active without a trigger; file-level declarations of the slot functions in the initial file and in reloaded "
     "versions (edited away by the next reload), deletion of a whole script file + reload and its later restoration; "
+    "a third of the files import a module of their own and route half of their define/delete ops through a function "
+    "of that module (definitions live in the module's context, made by a call from the file's context; the module "
+    "survives reloads of the file, an edit of the module reloads both); form 'shared' = one name declared by both slot "
+    "functions of a context (run time, and both at once at file level); reload_racing = reload followed 0-10 ms later "
+    "by reload / unload / file deletion / outgoing call, with the description loader taking per-call pauses from a "
+    "seeded list of 2-5 values in {0,1,4,12} ms (40% of the runs; 25% use the constant 2/8 ms pause instead); 6% of "
+    "the definitions come after a caught failing user decorator in the same call; outgoing calls may carry a data "
+    "field named limit (never a number); every run ends with an unload after which nothing may remain; "
     "steer (half of the runs) keeps away from the constructs with a finding on record: legacy gets no definition that "
     "fails after registering (refused description, @state_active without trigger) and no name given twice, the "
     "default subsystem no run-time definition in the form the file declares for that slot at file level, no run "
-    "the capital-letter spelling, no overlapping definitions one of which has a refused description; "
+    "the capital-letter spelling, no overlapping definitions one of which has a refused description, no 'shared' form; "
     "distinct = scenario digest; "
     "non-trivial = a service name changed hands between generations"
 )
@@ -79,7 +110,6 @@ ASSUMPTIONS = [
     "a definition and a deletion/second definition of the same slot that overlap in time take effect in the order in "
     "which the script finished them (the statement following the def/del ran); a definition that is still in "
     "progress when its context is reloaded or unloaded belongs to no loaded context when it finishes",
-    "the undocumented 'limit' option of the entity-method call form is not generated",
     "a function whose doc string starts with 'yaml' but yields no service description (not a mapping, or not "
     "parseable) is legal Python; whether its names are registered while it is the declaring function is don't-care "
     "(also for another context that defines the same name meanwhile: who owns it is open until all of them are "
@@ -90,6 +120,22 @@ ASSUMPTIONS = [
     "a name given twice in one @service is declared once",
     "which of two script FILES wins a name both declare at file level depends on the load order, which is not "
     "documented: file-level declarations use the default-name form only in single-file scenarios",
+    "a pyscript module is a global context of its own ('modules.NAME'): functions defined by one of its functions "
+    "with 'global' live in the module's context whoever called it; per the reload rules of the documentation (only "
+    "changed files and the files that import them are reloaded) the module and what it holds stay loaded when the "
+    "importing script is edited + reloaded or deleted, and editing the module reloads the module and its importer",
+    "when several live functions of one context declare one name, 'the most recent definition' is the one whose def "
+    "statement was executed last (for declarations at file level: the one further down in the file); after that "
+    "one is removed the most recent of the remaining declarers",
+    "a keyword named limit with an int/float value is not generated: the documentation says the blocking timeout "
+    "'limit' is no longer supported since HASS 2023.7, tests/test_state.py::test_service_call still expects the "
+    "entity-method form to pass it on as a call option, and Home Assistant 2025.1 rejects it (TypeError) - what "
+    "should happen is open; with a value of any other type it is an ordinary data field in every call form",
+    "an outgoing call is judged the same whether or not another task of pyscript is refreshing the service "
+    "descriptions at that moment (Home Assistant's description loader may suspend for any time; the seam delays it "
+    "by 0-12 ms per call)",
+    "a function definition whose user decorator raises is an ordinary Python exception the script may catch; "
+    "definitions made afterwards by the same script code are declared like any other",
 ]
 TIERS = {
     "quick": {"runs": 450, "chunk": 15},
@@ -105,14 +151,24 @@ REACH_PROBES = ["name_changed_hands", "foreign_takeover_attempt", "call_in_fligh
                 "name_defined_elsewhere_while_undecided", "file_level_declaration", "file_level_declaration_edited_away",
                 "file_level_declaration_back_after_setup", "script_file_deleted", "script_file_restored",
                 "file_level_name_redefined_at_run_time", "definition_overlapped_by_refused_definition",
-                "state_active_without_trigger", "name_declared_in_two_spellings", "name_given_twice_form"]
+                "state_active_without_trigger", "name_declared_in_two_spellings", "name_given_twice_form",
+                "defined_through_module_function", "module_definition_deleted",
+                "module_definition_survived_reload_of_importing_file", "module_reloaded", "reload_followed_closely",
+                "lifecycle_op_while_start_pass_suspended", "outgoing_call_during_description_refresh",
+                "outgoing_data_field_named_limit", "shared_name_two_declarers",
+                "shared_name_two_declarers_at_file_level", "latest_declarer_of_shared_name_removed",
+                "definition_after_failed_decorator", "final_unload"]
 SHRINK_LISTS = [["ops"]]
 
 CTXS = ["ca", "cb", "cc"]
-FORMS = ["default", "explicit", "two_names", "two_decorators", "optional", "only", "upper", "dup_names"]
+FORMS = ["default", "explicit", "two_names", "two_decorators", "optional", "only", "upper", "dup_names", "shared"]
+# 'shared': one explicit name per context that BOTH slot functions can declare: two different live functions of one
+# context declaring one service name ("at least one live function declares it"; the most recent definition runs)
 # 'upper': the default name written with a capital letter (Home Assistant folds service names to lower case, so it IS
 # the default name, also for ownership); 'dup_names': the same name twice in one decorator
-RACE_THEN = ["reload_ctx", "reload_ctx", "unload", "unload", "delete", "define"]
+RACE_THEN = ["reload_ctx", "reload_ctx", "unload", "unload", "delete", "define", "out", "out"]
+# what follows closely on a reload whose start pass may still be suspended
+RELOAD_THEN = ["reload_ctx", "reload_ctx", "unload", "unload", "drop_file", "out"]
 # doc strings of a @service function: kind -> variants (the text between the triple quotes, first line first)
 DOC_BODIES = {
     "text": [["blink the light named by who"], ["Sets n on the target.", "", "A longer explanation follows here."]],
@@ -141,7 +197,25 @@ ODD_VALUES = {
     "context": ["kitchen", 7, None, ["hall"]],
     "blocking": ["later", 0, 1, None, 2.5],
     "return_response": ["yes", 0, 1, None],
+    # 'limit' (the blocking timeout of old Home Assistant versions, "no longer supported" per the documentation) is
+    # still split out by the entity-method form when it is an int or float - a pinned test expects that, the installed
+    # Home Assistant refuses it: open, so never a number here; with any other type it is a data field like the others
+    "limit": ["ten", None, True, [3]],
 }
+
+
+def is_mod(ctx: str) -> bool:
+    """Model contexts 'ma'/'mb'/'mc' are the pyscript modules modules/ma.py ... imported by ca.py ..."""
+    return ctx.startswith("m")
+
+
+def host_of(ctx: str) -> str:
+    """The script file through whose life_<ctx> service the definitions of a (module) context are driven."""
+    return "c" + ctx[1:] if is_mod(ctx) else ctx
+
+
+def mod_of(ctx: str) -> str:
+    return "m" + ctx[1:]
 
 
 def names_of(ctx: str, slot: int, form: str) -> list[str]:
@@ -149,6 +223,8 @@ def names_of(ctx: str, slot: int, form: str) -> list[str]:
         return [f"s{slot}"]
     if form == "dup_names":
         return [f"dup{slot}_{ctx}"]
+    if form == "shared":
+        return [f"sh_{ctx}"]
     if form == "explicit":
         return [f"x{slot}_{ctx}"]
     if form == "two_names":
@@ -163,9 +239,22 @@ def names_of(ctx: str, slot: int, form: str) -> list[str]:
 def gen(rng: random.Random, tier: str) -> dict:
     cfg = gen_cfg(rng)
     cfg["drift"] = 0.0
-    # injected suspension inside State.get_service_params(), i.e. inside the start-up of a @service (new subsystem)
-    cfg["svc_params_delay_ms"] = rng.choice([0, 0, 2.0, 8.0])
+    # the refresh of the service descriptions (State.get_service_params(): in the start-up of a @service of the default
+    # subsystem, in pyscript.reload, after Home Assistant has started) is a real suspension point.  Two seams:
+    # - svc_params_delay_ms (sim/world.py): every refresh is preceded by the same pause;
+    # - svc_desc_delays_ms (this module): Home Assistant's description loader itself takes the k-th of these pauses for
+    #   its k-th call (cyclic), i.e. refreshes take different times, as they do when other integrations register
+    #   services meanwhile - so a reload/unload can arrive while the start pass of the previous load is still suspended
+    cfg["svc_params_delay_ms"] = 0
+    seam = rng.random()
+    if seam < 0.25:
+        cfg["svc_params_delay_ms"] = rng.choice([2.0, 8.0])
+    elif seam < 0.65:
+        cfg["svc_desc_delays_ms"] = [rng.choice([0, 0, 1.0, 4.0, 12.0]) for _ in range(rng.randint(2, 5))]
     ctxs = CTXS[: rng.randint(1, 3)]
+    # script files that import a module of their own (modules/ma.py for ca.py ...) through whose function life() the
+    # slot functions can be defined and deleted in the MODULE's global context, by a call coming from the file's context
+    mods = [ctx for ctx in ctxs if rng.random() < 0.3]
     # half of the runs stay away from the construct with a finding on record (legacy subsystem: a doc string whose
     # description Home Assistant refuses leaves the name registered for ever)
     steer = rng.random() < 0.5
@@ -176,7 +265,7 @@ def gen(rng: random.Random, tier: str) -> dict:
     file_top: dict = {}   # ctx -> {slot: form} declared at file level by the file version on disk
 
     def gen_form(ctx, slot) -> str:
-        form = steer_form(rng.choice(FORMS + ["default", "default"]))
+        form = steer_form(rng.choice(FORMS + ["default", "default", "shared"]))
         if avoid_over and file_top.get(ctx, {}).get(slot) == form:
             form = steer_form(rng.choice([f for f in FORMS if f != form]))
             if file_top.get(ctx, {}).get(slot) == form:
@@ -192,6 +281,8 @@ def gen(rng: random.Random, tier: str) -> dict:
             return "default"      # finding on record: names that differ only in case
         if avoid and form == "dup_names":
             return "two_names"    # finding on record (legacy): a name given twice is released once
+        if steer and form == "shared":
+            return "explicit"     # finding on record: the handler of a removed declarer of a shared name is kept
         return form
 
     def gen_doc() -> dict:
@@ -206,6 +297,9 @@ def gen(rng: random.Random, tier: str) -> dict:
     def gen_top() -> list:
         """File-level declarations of the slot functions (default names only where no other file can claim them)."""
         decls = []
+        if not steer and rng.random() < 0.12:
+            # both slot functions declare the same name at file level: the later one is the most recent definition
+            return [{"slot": slot, "form": "shared", **gen_doc()} for slot in (0, 1)]
         for slot in (0, 1):
             if rng.random() < 0.4:
                 form = steer_form(rng.choice(FORMS))
@@ -213,6 +307,33 @@ def gen(rng: random.Random, tier: str) -> dict:
                     form = "explicit"
                 decls.append({"slot": slot, "form": form, **gen_doc()})
         return decls
+
+    def gen_out(ctx) -> dict:
+        data = {"a": rng.randint(0, 9), "txt": rng.choice(["x", "y"])}
+        flags = {}
+        if rng.random() < 0.4:
+            flags["blocking"] = rng.random() < 0.7
+        if rng.random() < 0.3:
+            flags["return_response"] = True
+        if rng.random() < 0.2:
+            flags["context"] = True
+        form = rng.choice(["direct", "service_call", "entity_pos", "entity_kw"])
+        if flags.get("return_response"):
+            # Home Assistant only returns a response to a blocking call; the entity-method form documents
+            # no implicit blocking, so it is always given there
+            if form.startswith("entity") or "blocking" in flags:
+                flags["blocking"] = True
+        odd = {}
+        if rng.random() < 0.4:
+            # ordinary data fields that share the name of a call option (only where the option itself is not given)
+            for key in rng.sample(sorted(ODD_VALUES), rng.choice([1, 1, 2, 3])):
+                if key not in flags:
+                    odd[key] = rng.choice(ODD_VALUES[key])
+        return {"kind": "out", "ctx": ctx, "form": form, "data": data, "flags": flags, "odd": odd}
+
+    def gen_pre() -> dict:
+        # in the same call, before the definition: a function definition whose user decorator raises, caught by the script
+        return {"pre": "bad_deco"} if rng.random() < 0.06 else {}
 
     top = {}
     for ctx in ctxs:
@@ -228,20 +349,26 @@ def gen(rng: random.Random, tier: str) -> dict:
                 ops.append({"kind": "reload_ctx", "ctx": ctx, "top": note_top(ctx, gen_top() if rng.random() < 0.5 else [])})
         roll = rng.random()
         ctx = rng.choice(ctxs)
-        if roll < 0.43:
+        # where the slot functions live: the file's own global context, or (a quarter of the ops of a file that has
+        # one) the module's
+        dctx = mod_of(ctx) if ctx in mods and rng.random() < 0.5 else ctx
+        if roll < 0.41:
             slot = rng.randint(0, 1)
-            ops.append({"kind": "define", "ctx": ctx, "slot": slot, "form": gen_form(ctx, slot),
-                        "inflight": rng.random() < 0.3, **gen_doc()})
-        elif roll < 0.50:
+            ops.append({"kind": "define", "ctx": dctx, "slot": slot, "form": gen_form(dctx, slot),
+                        "inflight": rng.random() < 0.3, **gen_doc(), **gen_pre()})
+        elif roll < 0.48:
             # a definition that is still in progress (issued, not awaited) when something stops or supersedes it
             then = rng.choice(RACE_THEN)
             slot = rng.randint(0, 1)
-            op = {"kind": "define_racing", "ctx": ctx, "slot": slot,
-                  "form": gen_form(ctx, slot), "then": then,
-                  "form2": gen_form(ctx, slot),
+            op = {"kind": "define_racing", "ctx": dctx, "slot": slot,
+                  "form": gen_form(dctx, slot), "then": then,
+                  "form2": gen_form(dctx, slot),
                   "after_ms": rng.choice([0, 0.1, 0.4, 1, 3, 10, 25]), **gen_doc()}
-            if then == "reload_ctx":
+            if then == "reload_ctx" and not is_mod(dctx):
                 note_top(ctx, [])
+            if then == "out":
+                # an outgoing call of a script (this or another file) while the definition is in progress
+                op["out"] = gen_out(rng.choice(ctxs))
             doc2 = gen_doc()
             if doc2:
                 op["doc2"], op["docv2"] = doc2["doc"], doc2["docv"]
@@ -253,46 +380,49 @@ def gen(rng: random.Random, tier: str) -> dict:
             ops.append(op)
             if then == "unload":
                 ops.append({"kind": "setup"})
-        elif roll < 0.62:
-            ops.append({"kind": "delete", "ctx": ctx, "slot": rng.randint(0, 1), "inflight": rng.random() < 0.3})
-        elif roll < 0.69:
-            ops.append({"kind": "reload_ctx", "ctx": ctx, "top": note_top(ctx, gen_top() if rng.random() < 0.5 else [])})
-        elif roll < 0.77:
+        elif roll < 0.60:
+            ops.append({"kind": "delete", "ctx": dctx, "slot": rng.randint(0, 1), "inflight": rng.random() < 0.3})
+        elif roll < 0.67:
+            if is_mod(dctx):
+                # the module is edited: it and the file that imports it are reloaded
+                ops.append({"kind": "reload_ctx", "ctx": dctx})
+            else:
+                ops.append({"kind": "reload_ctx", "ctx": ctx, "top": note_top(ctx, gen_top() if rng.random() < 0.5 else [])})
+        elif roll < 0.715:
+            # a reload closely followed by the next lifecycle op: the start pass of the reloaded file (one start-up per
+            # decorated function, each of which may be suspended in the description refresh) can still be going on
+            then = rng.choice(RELOAD_THEN)
+            if ctx in restore:
+                continue
+            op = {"kind": "reload_racing", "ctx": ctx, "top": note_top(ctx, gen_top() if rng.random() < 0.6 else []),
+                  "then": then, "after_ms": rng.choice([0, 0.1, 0.5, 1, 2, 5, 10])}
+            if then == "reload_ctx":
+                op["top2"] = note_top(ctx, gen_top() if rng.random() < 0.3 else [])
+            if then == "out":
+                op["out"] = gen_out(rng.choice(ctxs))
+            ops.append(op)
+            if then == "unload":
+                ops.append({"kind": "setup"})
+            if then == "drop_file":
+                note_top(ctx, [])
+                restore[ctx] = rng.randint(1, 4)
+        elif roll < 0.78:
             # two calls of one service in flight at once, the first resumes while the second is still suspended
             naps = rng.choice([[0.2, 0.3], [0.3, 0.1], [0.2, 0.2], [0.4, 0.5]])
-            ops.append({"kind": "overlap", "ctx": ctx, "slot": rng.randint(0, 1), "naps": naps, "gap": 0.1})
-        elif roll < 0.82:
+            ops.append({"kind": "overlap", "ctx": dctx, "slot": rng.randint(0, 1), "naps": naps, "gap": 0.1})
+        elif roll < 0.83:
             ops.append({"kind": "unload"})
             ops.append({"kind": "setup"})
-        elif roll < 0.86:
+        elif roll < 0.87:
             # the whole script file is deleted and pyscript reloaded; a later reload_ctx writes it again
             if ctx not in restore:
                 ops.append({"kind": "drop_file", "ctx": ctx})
                 note_top(ctx, [])
                 restore[ctx] = rng.randint(1, 4)
         else:
-            data = {"a": rng.randint(0, 9), "txt": rng.choice(["x", "y"])}
-            flags = {}
-            if rng.random() < 0.4:
-                flags["blocking"] = rng.random() < 0.7
-            if rng.random() < 0.3:
-                flags["return_response"] = True
-            if rng.random() < 0.2:
-                flags["context"] = True
-            form = rng.choice(["direct", "service_call", "entity_pos", "entity_kw"])
-            if flags.get("return_response"):
-                # Home Assistant only returns a response to a blocking call; the entity-method form documents
-                # no implicit blocking, so it is always given there
-                if form.startswith("entity") or "blocking" in flags:
-                    flags["blocking"] = True
-            odd = {}
-            if rng.random() < 0.4:
-                # ordinary data fields that share the name of a call option (only where the option itself is not given)
-                for key in rng.sample(sorted(ODD_VALUES), rng.choice([1, 1, 2, 3])):
-                    if key not in flags:
-                        odd[key] = rng.choice(ODD_VALUES[key])
-            ops.append({"kind": "out", "ctx": ctx, "form": form, "data": data, "flags": flags, "odd": odd})
-    return {"cfg": cfg, "spec": {"ctxs": ctxs, "top": top, "steer": steer}, "ops": ops}
+            ops.append(gen_out(ctx))
+    # at the end of every run the integration is unloaded: nothing that pyscript registered may remain
+    return {"cfg": cfg, "spec": {"ctxs": ctxs, "top": top, "steer": steer, "mods": mods, "final_unload": True}, "ops": ops}
 
 
 def _def_block(ctx: str, slot: int, form: str, indent: str, doc: str = "none", docv: int = 0, gen_expr: str = "gen") -> list[str]:
@@ -305,7 +435,7 @@ def _def_block(ctx: str, slot: int, form: str, indent: str, doc: str = "none", d
         lines.append(f"{indent}@service('pyscript.S{slot}')")
     elif form == "dup_names":
         lines.append(f"{indent}@service('pyscript.{names[0]}', 'pyscript.{names[0]}')")
-    elif form == "explicit":
+    elif form in ("explicit", "shared"):
         lines.append(f"{indent}@service('pyscript.{names[0]}')")
     elif form == "two_names":
         lines.append(f"{indent}@service('pyscript.{names[0]}', 'pyscript.{names[1]}')")
@@ -357,15 +487,20 @@ def _docs_used(scn: dict, ctx: str) -> list:
     return sorted(used)
 
 
-def _ctx_src(ctx: str, version: int, docs=(), top=()) -> str:
-    lines = [f"# version {version}", ""]
-    for decl in top:
-        # file-level declaration of a slot function (the same global name the run-time definitions use)
-        doc, docv = _doc_of(decl)
-        lines += _def_block(ctx, decl["slot"], decl["form"], "", doc, docv, gen_expr=str(TOP_GEN + version))
-        lines.append("")
-    lines += ["@service", f"def life_{ctx}(cmd=None, slot=None, gen=None, form=None):",
-              "    global s0, s1"]
+RAISING_DECO = ["def raising_deco(func):", "    raise ValueError('this decorator refuses every function')", ""]
+
+
+def _life_body(ctx: str, docs=()) -> list[str]:
+    """Body of the function that defines / deletes the slot functions in the global context it belongs to."""
+    lines = ["    global s0, s1",
+             "    if pre == 'bad_deco':",
+             "        # a definition that fails in a user decorator; the script carries on",
+             "        try:",
+             "            @raising_deco",
+             "            def victim():",
+             "                pass",
+             "        except ValueError:",
+             f"            sim.mark('life', 'caught', {ctx!r}, slot, gen)"]
     for slot in (0, 1):
         for form in FORMS:
             lines.append(f"    if cmd == 'define' and slot == {slot} and form == {form!r}:")
@@ -380,6 +515,34 @@ def _ctx_src(ctx: str, version: int, docs=(), top=()) -> str:
         lines.append(f"    if cmd == 'delete' and slot == {slot}:")
         lines.append(f"        del s{slot}")
         lines.append(f"        sim.mark('life', 'del', {ctx!r}, {slot}, None)")
+    return lines
+
+
+def _mod_src(mctx: str, version: int, docs=()) -> str:
+    """modules/<mctx>.py: no service of its own; life() is called by the importing file's life_<ctx> service."""
+    lines = [f"# module version {version}", ""] + RAISING_DECO
+    lines += ["def life(cmd=None, slot=None, gen=None, form=None, pre=None):"]
+    lines += _life_body(mctx, docs)
+    return "\n".join(lines) + "\n"
+
+
+def _ctx_src(ctx: str, version: int, docs=(), top=(), mod: bool = False) -> str:
+    lines = [f"# version {version}", ""]
+    if mod:
+        lines += [f"import {mod_of(ctx)}", ""]
+    lines += RAISING_DECO
+    for decl in top:
+        # file-level declaration of a slot function (the same global name the run-time definitions use)
+        doc, docv = _doc_of(decl)
+        lines += _def_block(ctx, decl["slot"], decl["form"], "", doc, docv, gen_expr=str(TOP_GEN + version))
+        lines.append("")
+    lines += ["@service", f"def life_{ctx}(cmd=None, slot=None, gen=None, form=None, pre=None, via=None):"]
+    if mod:
+        lines += ["    if via == 'mod':",
+                  "        # the same, done by a function of the module in the module's global context",
+                  f"        {mod_of(ctx)}.life(cmd, slot, gen, form, pre)",
+                  "        return"]
+    lines += _life_body(ctx, docs)
     lines += ["", "@service", f"def out_{ctx}(form=None, data=None, flags=None, odd=None):",
               "    kw = dict(data)",
               "    kw.update(odd or {})",
@@ -410,12 +573,20 @@ def _cmd_of(doc: str, docv: int) -> str:
 
 def render(scn: dict) -> dict:
     top = scn["spec"].get("top") or {}
-    return {f"pyscript/{ctx}.py": _ctx_src(ctx, 0, _docs_used(scn, ctx), top.get(ctx) or []) for ctx in scn["spec"]["ctxs"]}
+    mods = scn["spec"].get("mods") or []
+    files = {f"pyscript/{ctx}.py": _ctx_src(ctx, 0, _docs_used(scn, ctx), top.get(ctx) or [], ctx in mods)
+             for ctx in scn["spec"]["ctxs"]}
+    for ctx in mods:
+        files[f"pyscript/modules/{mod_of(ctx)}.py"] = _mod_src(mod_of(ctx), 0, _docs_used(scn, mod_of(ctx)))
+    return files
 
 
 def normalize(scn: dict) -> dict | None:
     ctxs = scn["spec"]["ctxs"]
-    scn["ops"] = [op for op in scn["ops"] if op.get("ctx", ctxs[0]) in ctxs]
+    mods = scn["spec"]["mods"] = [ctx for ctx in scn["spec"].get("mods") or [] if ctx in ctxs]
+    known = set(ctxs) | {mod_of(ctx) for ctx in mods}
+    scn["ops"] = [op for op in scn["ops"] if op.get("ctx", ctxs[0]) in known and
+                  (op.get("out") or {}).get("ctx", ctxs[0]) in ctxs]
     return scn
 
 
@@ -443,11 +614,54 @@ def simplify(scn: dict):
                 cand = copy.deepcopy(scn)
                 cand["spec"]["ctxs"].remove(ctx)
                 yield cand
+    for ctx in scn["spec"].get("mods") or []:
+        # without the module: its ops act on the file's own context instead / are dropped
+        cand = copy.deepcopy(scn)
+        cand["spec"]["mods"].remove(ctx)
+        for op in cand["ops"]:
+            if op.get("ctx") == mod_of(ctx):
+                op["ctx"] = ctx
+                if op["kind"] == "reload_ctx":
+                    op["top"] = []
+        yield cand
+    if scn["spec"].get("final_unload"):
+        cand = copy.deepcopy(scn)
+        cand["spec"]["final_unload"] = False
+        yield cand
     for i, op in enumerate(scn["ops"]):
         if op.get("inflight"):
             cand = copy.deepcopy(scn)
             cand["ops"][i]["inflight"] = False
             yield cand
+        if op.get("pre"):
+            cand = copy.deepcopy(scn)
+            cand["ops"][i].pop("pre")
+            yield cand
+        if is_mod(op.get("ctx", "")) and op["kind"] != "reload_ctx":
+            cand = copy.deepcopy(scn)
+            cand["ops"][i]["ctx"] = host_of(op["ctx"])
+            yield cand
+        if op["kind"] == "reload_racing":
+            # the two ops one after the other, each waited for
+            cand = copy.deepcopy(scn)
+            plain = [{"kind": "reload_ctx", "ctx": op["ctx"], "top": op.get("top") or []}]
+            if op["then"] == "reload_ctx":
+                plain.append({"kind": "reload_ctx", "ctx": op["ctx"], "top": op.get("top2") or []})
+            elif op["then"] == "out":
+                plain.append(op["out"])
+            else:
+                plain.append({"kind": op["then"], "ctx": op["ctx"]})
+            cand["ops"][i:i + 1] = plain
+            yield cand
+            for key in ("top", "top2"):
+                if op.get(key):
+                    cand = copy.deepcopy(scn)
+                    cand["ops"][i][key] = []
+                    yield cand
+            if op["after_ms"]:
+                cand = copy.deepcopy(scn)
+                cand["ops"][i]["after_ms"] = 0
+                yield cand
         for key in ("doc", "doc2"):
             if op.get(key):
                 # no doc string / the first text of its kind
@@ -488,6 +702,10 @@ def simplify(scn: dict):
                     plain[1].update({"doc": op["doc2"], "docv": op.get("docv2", 0)})
             elif op["then"] == "unload":
                 plain.append({"kind": "unload"})
+            elif op["then"] == "out":
+                plain.append(op["out"])
+            elif op["then"] == "reload_ctx" and is_mod(op["ctx"]):
+                plain.append({"kind": "reload_ctx", "ctx": op["ctx"]})
             else:
                 plain.append({"kind": op["then"], "ctx": op["ctx"], "slot": op["slot"], "inflight": False})
             cand["ops"][i:i + 1] = plain
@@ -500,18 +718,27 @@ def simplify(scn: dict):
                 cand = copy.deepcopy(scn)
                 cand["ops"][i]["form"] = "default"
                 yield cand
-        if op["kind"] == "out" and op.get("odd"):
-            cand = copy.deepcopy(scn)
-            cand["ops"][i]["odd"] = {}
-            yield cand
-            if len(op["odd"]) > 1:
-                for key in sorted(op["odd"]):
-                    cand = copy.deepcopy(scn)
-                    cand["ops"][i]["odd"] = {key: op["odd"][key]}
-                    yield cand
+        out = op if op["kind"] == "out" else op.get("out")
+        if out and out.get("odd"):
+            def with_odd(odd):
+                cand = copy.deepcopy(scn)
+                (cand["ops"][i] if op["kind"] == "out" else cand["ops"][i]["out"])["odd"] = odd
+                return cand
+
+            yield with_odd({})
+            if len(out["odd"]) > 1:
+                for key in sorted(out["odd"]):
+                    yield with_odd({key: out["odd"][key]})
+    delays = scn["cfg"].get("svc_desc_delays_ms") or []
+    if len(delays) > 1:
+        for j in range(len(delays)):
+            if delays[j]:
+                cand = copy.deepcopy(scn)
+                cand["cfg"]["svc_desc_delays_ms"][j] = 0
+                yield cand
     for key, val in (("timer_late_ms", 0.0), ("cost_us", 50), ("exec_latency_ms", [0.0, 0.0]), ("set_order_salt", 0),
-                     ("svc_params_delay_ms", 0)):
-        if scn["cfg"].get(key) != val:
+                     ("svc_params_delay_ms", 0), ("svc_desc_delays_ms", [])):
+        if (scn["cfg"].get(key) or val) != val:
             cand = copy.deepcopy(scn)
             cand["cfg"][key] = val
             yield cand
@@ -603,11 +830,53 @@ def _ha_caches(refresh: bool = False) -> list:
     return _HA_CACHES
 
 
+class C12World(World):
+    """Seam: Home Assistant's service-description loader, as called by pyscript, suspends for a per-call time."""
+
+    desc_busy = 0   # description loads in progress right now (reach probes and violation labels only)
+
+    def extra_patches(self) -> list:
+        import asyncio
+        from unittest.mock import patch
+
+        import custom_components.pyscript.state as state_mod
+
+        delays = [float(d) for d in (self.cfg.get("svc_desc_delays_ms") or [])]
+        if not any(d > 0 for d in delays):
+            delays = [0.0]
+        orig = state_mod.async_get_all_descriptions
+        calls = [0]
+        self.desc_spans = []   # [virtual time begun, virtual time finished or None] of every description load
+
+        async def slow_descriptions(hass):
+            # (legal: the loader reads the services.yaml of integrations whose descriptions are not cached yet in the
+            # executor; how long that takes depends on what else registered services since the last call)
+            delay = delays[calls[0] % len(delays)]
+            calls[0] += 1
+            span = [self.loop.vt, None]
+            self.desc_spans.append(span)
+            self.desc_busy += 1
+            try:
+                if delay > 0:
+                    self.fault("slow_service_description_load")
+                    await asyncio.sleep(delay / 1000.0)
+                return await orig(hass)
+            finally:
+                self.desc_busy -= 1
+                span[1] = self.loop.vt
+
+        return [patch.object(state_mod, "async_get_all_descriptions", slow_descriptions)]
+
+    def desc_load_between(self, t0: float, t1: float) -> bool:
+        """A description load that took time (ie suspended) was in progress at some time in [t0, t1]."""
+        return any(beg <= t1 and (end is None or (end >= t0 and end > beg)) for beg, end in self.desc_spans)
+
+
 def _run(scn: dict) -> dict:
     spec = scn["spec"]
     cfg = dict(scn["cfg"])
     cfg["initial_states"] = {"test.e1": ["on", {}]}
-    w = World(cfg, render(scn))
+    w = C12World(cfg, render(scn))
     sub = "legacy" if cfg["legacy"] else "new"
     violations: list = []
     state = {"changed_hands": False}
@@ -656,15 +925,41 @@ def _run(scn: dict) -> dict:
         slots: dict = {}      # (ctx, slot) -> {"gen", "form", "names": registered names}
         owner: dict = {}      # name -> ctx
         gens: dict = {}
-        version = {ctx: 0 for ctx in spec["ctxs"]}
-        docs_used = {ctx: _docs_used(scn, ctx) for ctx in spec["ctxs"]}
+        mods = [ctx for ctx in spec.get("mods") or [] if ctx in spec["ctxs"]]
+        model_ctxs = list(spec["ctxs"]) + [mod_of(ctx) for ctx in mods]   # files + their modules
+        version = {ctx: 0 for ctx in model_ctxs}
+        docs_used = {ctx: _docs_used(scn, ctx) for ctx in model_ctxs}
+        seq = [0]             # definitions are numbered in the order in which they took effect
+        stale: dict = {}      # name -> [ctx, slot, gen] of the removed declarer that was the latest one of a name that
+        #                       another live function still declares (finding on record: its handler stays)
         cur_top = {ctx: list((spec.get("top") or {}).get(ctx) or []) for ctx in spec["ctxs"]}   # file-level declarations
         dropped: set = set()  # contexts whose script file is deleted
         mixed: set = set()    # names declared, at overlapping times, in spellings that differ in case
         tainted: dict = {}    # name -> doc kind: declared by a function without usable description, not seen absent since
         entry_loaded = True
         call_n = [0]
-        all_names = sorted({n for ctx in spec["ctxs"] for slot in (0, 1) for form in FORMS for n in names_of(ctx, slot, form)})
+        all_names = sorted({n for ctx in model_ctxs for slot in (0, 1) for form in FORMS for n in names_of(ctx, slot, form)})
+
+        async def life_call(ctx, data, blocking=True):
+            """Ask the script to define / delete a slot function in context ctx (a file's or its module's)."""
+            if is_mod(ctx):
+                data = {**data, "via": "mod"}
+            return await w.call_service("pyscript", f"life_{host_of(ctx)}", data, blocking=blocking)
+
+        def latest(holders):
+            return max(holders, key=lambda h: slots[h]["seq"])
+
+        def note_removed(ctx, slot, ent):
+            """A declarer is gone: was it the most recent one of a name that other live functions still declare?"""
+            dec = declared()
+            # (a definition whose description was refused may have registered its names all the same)
+            for name in ent["names"] or (ent.get("maybe_names") or []):
+                others = [h for h in dec.get(name, []) if h != (ctx, slot)]
+                if not others:
+                    stale.pop(name, None)
+                elif ent["seq"] > max(slots[h]["seq"] for h in others):
+                    stale[name] = [ctx, slot, ent["gen"]]
+                    w.probe("latest_declarer_of_shared_name_removed")
 
         def declared() -> dict:
             """name -> list of (ctx, slot) that currently declare it (and own it)."""
@@ -675,9 +970,11 @@ def _run(scn: dict) -> dict:
             return out
 
         def model_remove(ctx, slot):
-            ent = slots.pop((ctx, slot), None)
+            ent = slots.get((ctx, slot))
             if ent is None:
                 return
+            note_removed(ctx, slot, ent)
+            del slots[(ctx, slot)]
             if ent.get("doc") in SCHEMA_FAIL:
                 w.probe("description_refused_then_undeclared")
             dec = declared()
@@ -704,7 +1001,7 @@ def _run(scn: dict) -> dict:
                     mixed.add(name)
                     w.probe("name_declared_in_two_spellings")
 
-        def model_define(ctx, slot, form, gen_no, doc="none"):
+        def model_define(ctx, slot, form, gen_no, doc="none", pre=None):
             """Register-before-remove: the new definition takes its names, then the old one is dropped."""
             new_names = []
             conflict = False
@@ -739,10 +1036,26 @@ def _run(scn: dict) -> dict:
             over = bool(old and old["gen"] >= TOP_GEN > gen_no and set(old["names"]) & set(new_names))
             if over:
                 w.probe("file_level_name_redefined_at_run_time")
+            if old:
+                # (names the new definition declares too are its own now)
+                note_removed(ctx, slot, {**old, "names": [n for n in old["names"] if n not in new_names],
+                                         "maybe_names": [n for n in old.get("maybe_names") or [] if n not in new_names]})
+            seq[0] += 1
             slots[(ctx, slot)] = {"gen": gen_no, "form": form, "names": new_names, "conflict": conflict,
-                                  "uncertain": uncertain, "doc": doc, "over_file_level": over}
+                                  "uncertain": uncertain, "doc": doc, "over_file_level": over, "seq": seq[0],
+                                  "after_failed_decorator": pre == "bad_deco",
+                                  "maybe_names": names_of(ctx, slot, form) if uncertain else []}
+            if pre == "bad_deco":
+                w.probe("definition_after_failed_decorator")
+            if is_mod(ctx):
+                w.probe("defined_through_module_function")
             for name in new_names:
                 owner[name] = ctx
+                stale.pop(name, None)
+                if len(declared()[name]) > 1:
+                    w.probe("shared_name_two_declarers")
+                    if gen_no >= TOP_GEN:
+                        w.probe("shared_name_two_declarers_at_file_level")
             if old:
                 dec = declared()
                 for name in old["names"]:
@@ -809,6 +1122,13 @@ def _run(scn: dict) -> dict:
                     state["leaked"] = True
                     continue
                 over = any(slots[h].get("over_file_level") for h in dec.get(name, []))
+                if should and not has and all(slots[h].get("after_failed_decorator") for h in dec.get(name, [])):
+                    nviol(name, "C12.definition_after_failed_decorator_not_registered", {},
+                          f"after {tag}: pyscript.{name} is not registered although a live function declares it "
+                          f"(declared {dec}); it was defined after the script, in the same call, had caught the "
+                          f"exception of a user decorator that refused another function")
+                    state["leaked"] = True
+                    continue
                 if should and not has and over:
                     nviol(name, "C12.file_level_name_redefined_at_run_time", {"what": "missing"},
                          f"after {tag}: pyscript.{name} is not registered; the script file declares it at file level and "
@@ -826,7 +1146,7 @@ def _run(scn: dict) -> dict:
                 holders = dec.get(name) or [(c, s) for (c, s), e in slots.items() if name in e["names"]]
                 if not holders:
                     continue
-                ctx, slot = holders[-1]
+                ctx, slot = latest(holders)   # 'calling the service runs the most recent definition'
                 ent = slots[(ctx, slot)]
                 call_n[0] += 1
                 data = {"n": call_n[0], "who": name}
@@ -855,6 +1175,20 @@ def _run(scn: dict) -> dict:
                          f"description Home Assistant refused and which the script has replaced since; it was made while "
                          f"the definition that is current now was still starting up; expected {exp_args}")
                     state["leaked"] = True
+                elif len(got) == 1 and name in stale and got[0]["args"][1:4] == stale[name]:
+                    nviol(name, "C12.handler_of_removed_declarer_kept", {},
+                          f"after {tag}: calling pyscript.{name} ran {got[0]['args']}: a function that has been deleted / "
+                          f"redefined without this name / reloaded away; it was the most recent declarer of the name, "
+                          f"which another live function still declares: expected {exp_args}")
+                    state["leaked"] = True
+                elif (len(got) == 1 and got[0]["args"] != exp_args and len(holders) > 1 and
+                      any(got[0]["args"][1:4] == [c, sl, slots[(c, sl)]["gen"]] for (c, sl) in holders)):
+                    nviol(name, "C12.older_declarer_of_shared_name_ran",
+                          {"declared": "file_level" if ent["gen"] >= TOP_GEN else "run_time"},
+                          f"after {tag}: calling pyscript.{name} ran {got[0]['args']}, a live function that declares the "
+                          f"name too but was defined BEFORE the most recent definition: expected {exp_args} "
+                          f"(declarers in model order {holders})")
+                    state["leaked"] = True
                 elif len(got) != 1 or got[0]["args"] != exp_args:
                     nviol(name, "C12.wrong_definition_ran", {"form": ent["form"]},
                          f"after {tag}: calling pyscript.{name} ran {[m['args'] for m in got]}, expected {exp_args}")
@@ -879,14 +1213,115 @@ def _run(scn: dict) -> dict:
                 w.probe("file_level_declaration_edited_away")
             if ctx in dropped:
                 w.probe("script_file_restored")
-            w.write_file(f"pyscript/{ctx}.py", _ctx_src(ctx, version[ctx], docs_used[ctx], top))
+            w.write_file(f"pyscript/{ctx}.py", _ctx_src(ctx, version[ctx], docs_used[ctx], top, ctx in mods))
             await w.reload()
+            reloaded_model(ctx, top)
+
+        def reloaded_model(ctx, top):
             dropped.discard(ctx)
             cur_top[ctx] = list(top)
-            # whatever the old script defined (or was still defining) is not declared by a loaded context any more
+            # whatever the old script defined (or was still defining) is not declared by a loaded context any more;
+            # what its module holds stays: an unchanged module is not reloaded with the file that imports it
+            if any(k[0] == mod_of(ctx) for k in slots):
+                w.probe("module_definition_survived_reload_of_importing_file")
             for k in [k for k in slots if k[0] == ctx]:
                 model_remove(*k)
             model_file_level(ctx, "file_level_declaration")
+
+        async def rewrite_module_and_reload(mctx):
+            """The module is edited: it and (if loaded) the file that imports it are reloaded."""
+            version[mctx] += 1
+            w.probe("module_reloaded")
+            w.write_file(f"pyscript/modules/{mctx}.py", _mod_src(mctx, version[mctx], docs_used[mctx]))
+            await w.reload()
+            host = host_of(mctx)
+            for k in [k for k in slots if k[0] in (mctx, host)]:
+                model_remove(*k)
+            if host not in dropped:
+                model_file_level(host, "file_level_declaration")
+
+        async def reload_of(ctx, top):
+            if is_mod(ctx):
+                await rewrite_module_and_reload(ctx)
+            else:
+                await rewrite_and_reload(ctx, top)
+
+        def last_error() -> str:
+            """The exception line of the last error pyscript logged (no file paths: they differ between processes)."""
+            errs = [r["msg"] for r in w.logs if r["level"] == "ERROR"]
+            return repr(errs[-1].strip().splitlines()[-1][:200]) if errs else "nothing"
+
+        async def do_out(op, tag):
+            """A script calls the recording service in one of the call forms: exactly the given keywords arrive."""
+            pos_r = len(records)
+            pos_m = len(w.marks)
+            n_ctx = len(made_ctx)
+            odd = op.get("odd") or {}
+            call_data = {"form": op["form"], "data": op["data"], "flags": op["flags"]}
+            if odd:
+                call_data["odd"] = odd
+                w.probe("outgoing_option_named_data_field")
+                if "limit" in odd:
+                    w.probe("outgoing_data_field_named_limit")
+            t_call = w.loop.vt
+            try:
+                await w.call_service("pyscript", f"out_{op['ctx']}", call_data)
+            except ServiceNotFound:
+                # (only a call that closely follows a reload can get here: the reload has returned, the file is
+                # loaded, its services are declared)
+                viol("C12.registration", {"should_exist": True, "form": "file_level"},
+                     f"{tag}: pyscript.out_{op['ctx']} does not exist although the file {op['ctx']}.py is loaded "
+                     f"(the reload that loaded it has returned)")
+                return
+            # was some task of pyscript (start-up of a @service, reload) refreshing the service descriptions meanwhile?
+            busy = w.desc_load_between(t_call, w.loop.vt)
+            if busy:
+                w.probe("outgoing_call_during_description_refresh")
+            await w.settle(0.1)
+            # exactly the given keyword parameters: a keyword that is not a call option (by name AND type) is data
+            exp = {**op["data"], **odd}
+            svc = "record"
+            if op["form"] == "entity_pos":
+                exp = {"a": op["data"]["a"], "entity_id": "test.e1", **odd}
+                svc = "record_one"
+                w.probe("outgoing_entity_method")
+            elif op["form"] == "entity_kw":
+                exp["entity_id"] = "test.e1"
+                w.probe("outgoing_entity_method")
+            new = records[pos_r:]
+            sig = {"form": op["form"], "flags": "+".join(sorted(op["flags"])) or "none"}
+            if odd:
+                sig["option_named_field"] = "+".join(sorted(odd))
+            if len(new) != 1 or new[0]["data"] != exp or new[0]["service"] != svc:
+                detail = (f"{tag}: script call delivered {[(r['service'], r['data']) for r in new]}, expected "
+                          f"one call of test.{svc} with {exp}")
+                if busy and not new and op["form"].startswith("entity"):
+                    viol("C12.entity_method_call_lost_during_description_refresh", {"form": op["form"]},
+                         detail + "; the call was made while another task of pyscript was refreshing the service "
+                         f"descriptions; pyscript logged {last_error()}")
+                elif "limit" in odd and not new and op["form"].startswith("entity"):
+                    viol("C12.outgoing_data_field_named_limit", {"form": op["form"]},
+                         detail + f"; pyscript logged {last_error()}")
+                else:
+                    viol("C12.outgoing_call", sig, detail)
+            else:
+                if "context" in op["flags"] and len(made_ctx) > n_ctx and new[0]["ctx"].id != made_ctx[-1].id:
+                    viol("C12.outgoing_call", {**sig, "what": "context"}, f"{tag}: the given context was not used")
+                outs = [m for m in w.marks[pos_m:] if m["args"][0] == "out"]
+                if op["flags"].get("return_response"):
+                    w.probe("outgoing_return_response")
+                    if not outs or outs[0]["raw_kw"].get("ret") != {"echo": exp}:
+                        viol("C12.outgoing_call", {**sig, "what": "response"},
+                             f"{tag}: return_response=True gave {outs[0]['raw_kw'].get('ret') if outs else None!r}")
+
+        async def drop_file(ctx):
+            w.probe("script_file_deleted")
+            w.delete_file(f"pyscript/{ctx}.py")
+            await w.reload()
+            dropped.add(ctx)
+            cur_top[ctx] = []
+            for key in [k for k in slots if k[0] == ctx]:
+                model_remove(*key)
 
         for ctx in spec["ctxs"]:
             model_file_level(ctx, "file_level_declaration")
@@ -896,7 +1331,7 @@ def _run(scn: dict) -> dict:
             tag = f"op{i}:{kind}"
             if not entry_loaded and kind != "setup":
                 continue
-            if op.get("ctx") in dropped and kind != "reload_ctx":
+            if host_of(op.get("ctx") or "") in dropped and (kind != "reload_ctx" or is_mod(op["ctx"])):
                 continue   # the file of this context is deleted: nothing to talk to
             inflight = None
             if kind in ("define", "delete") and op.get("inflight"):
@@ -917,27 +1352,47 @@ def _run(scn: dict) -> dict:
                 key = (op["ctx"], op["slot"])
                 gens[key] = gens.get(key, 0) + 1
                 doc, docv = _doc_of(op)
-                await w.call_service("pyscript", f"life_{op['ctx']}", {"cmd": _cmd_of(doc, docv), "slot": op["slot"],
-                                                                       "gen": gens[key], "form": op["form"]})
-                model_define(op["ctx"], op["slot"], op["form"], gens[key], doc)
+                data = {"cmd": _cmd_of(doc, docv), "slot": op["slot"], "gen": gens[key], "form": op["form"]}
+                if op.get("pre"):
+                    data["pre"] = op["pre"]
+                await life_call(op["ctx"], data)
+                model_define(op["ctx"], op["slot"], op["form"], gens[key], doc, op.get("pre"))
             elif kind == "delete":
                 if (op["ctx"], op["slot"]) not in slots:
                     continue
                 w.probe("deleted_then_called")
-                await w.call_service("pyscript", f"life_{op['ctx']}", {"cmd": "delete", "slot": op["slot"]})
+                if is_mod(op["ctx"]):
+                    w.probe("module_definition_deleted")
+                await life_call(op["ctx"], {"cmd": "delete", "slot": op["slot"]})
                 model_remove(op["ctx"], op["slot"])
             elif kind == "reload_ctx":
                 if any(c == op["ctx"] for (c, _s) in slots):
                     w.probe("reload_dropped_runtime_definitions")
-                await rewrite_and_reload(op["ctx"], op.get("top") or [])
+                await reload_of(op["ctx"], op.get("top") or [])
+            elif kind == "reload_racing":
+                # a reload (waited for: the service call returns once the files are loaded and their start pass is
+                # under way) and, a moment later, the next lifecycle op of the same file
+                ctx = op["ctx"]
+                w.probe("reload_followed_closely")
+                await rewrite_and_reload(ctx, op.get("top") or [])
+                if op["after_ms"]:
+                    await w.sleep(op["after_ms"] / 1000.0)
+                if w.desc_busy:
+                    w.probe("lifecycle_op_while_start_pass_suspended")
+                if op["then"] == "reload_ctx":
+                    await rewrite_and_reload(ctx, op.get("top2") or [])
+                elif op["then"] == "unload":
+                    await w.unload_entry()
+                    for k in list(slots):
+                        model_remove(*k)
+                    entry_loaded = False
+                elif op["then"] == "out":
+                    if op["out"]["ctx"] not in dropped:
+                        await do_out(op["out"], tag)
+                else:
+                    await drop_file(ctx)
             elif kind == "drop_file":
-                w.probe("script_file_deleted")
-                w.delete_file(f"pyscript/{op['ctx']}.py")
-                await w.reload()
-                dropped.add(op["ctx"])
-                cur_top[op["ctx"]] = []
-                for key in [k for k in slots if k[0] == op["ctx"]]:
-                    model_remove(*key)
+                await drop_file(op["ctx"])
             elif kind == "unload":
                 await w.unload_entry()
                 for key in list(slots):
@@ -966,8 +1421,8 @@ def _run(scn: dict) -> dict:
                     # (also when the definition never gets into the reference model because its script is stopped)
                     for name in names_of(ctx, slot, op["form"]):
                         taint(name, doc1)
-                await w.call_service("pyscript", f"life_{ctx}", {"cmd": _cmd_of(doc1, docv1), "slot": slot, "gen": g1,
-                                                                 "form": op["form"]}, blocking=False)
+                await life_call(ctx, {"cmd": _cmd_of(doc1, docv1), "slot": slot, "gen": g1, "form": op["form"]},
+                                blocking=False)
                 if op["after_ms"]:
                     await w.sleep(op["after_ms"] / 1000.0)
 
@@ -985,7 +1440,8 @@ def _run(scn: dict) -> dict:
                 if then == "reload_ctx":
                     # (the new version declares nothing at file level: what an old definition still in progress does
                     # to a name the new file declares too is left to the plain ops)
-                    await rewrite_and_reload(ctx, [])
+                    # (for a definition made in a module: the module is edited, so it and its importer are reloaded)
+                    await reload_of(ctx, [])
                 elif then == "unload":
                     await w.unload_entry()
                     for k in list(slots):
@@ -994,12 +1450,13 @@ def _run(scn: dict) -> dict:
                 else:
                     g2 = None
                     if then == "delete":
-                        await w.call_service("pyscript", f"life_{ctx}", {"cmd": "delete", "slot": slot})
+                        await life_call(ctx, {"cmd": "delete", "slot": slot})
                     elif then == "define":
                         gens[key] += 1
                         g2 = gens[key]
-                        await w.call_service("pyscript", f"life_{ctx}", {"cmd": _cmd_of(doc2, docv2), "slot": slot, "gen": g2,
-                                                                         "form": op["form2"]})
+                        await life_call(ctx, {"cmd": _cmd_of(doc2, docv2), "slot": slot, "gen": g2, "form": op["form2"]})
+                    elif then == "out" and op["out"]["ctx"] not in dropped:
+                        await do_out(op["out"], tag)
                     await w.settle(0.1)
                     # the order in which the script finished the statements is the order in which they took effect
                     done = life_marks()
@@ -1012,7 +1469,7 @@ def _run(scn: dict) -> dict:
                         # each of the two overlapping calls of the script's own service must have run exactly once,
                         # with its own data; what the script defined is unknown now, so the scenario ends here
                         viol("C12.call_kwargs", {"form": "default", "overlap": True, "at": "life"},
-                             f"{tag}: two overlapping calls of pyscript.life_{ctx} were issued with (cmd, ctx, slot, gen) = "
+                             f"{tag}: two overlapping calls of pyscript.life_{host_of(ctx)} were issued with (cmd, ctx, slot, gen) = "
                              f"{want}; the script reports having done {done}")
                         return
                     for what, _c, _s, gen_no in done:
@@ -1032,6 +1489,8 @@ def _run(scn: dict) -> dict:
                 if not ent or not ent["names"]:
                     continue
                 name = ent["names"][-1]
+                if len(declared()[name]) > 1:
+                    continue   # (which of the declarers answers is judged by check_all)
                 want_resp = ent["form"] in ("optional", "only")
                 pos = len(w.marks)
                 calls = []
@@ -1067,42 +1526,7 @@ def _run(scn: dict) -> dict:
                                  f"{len(got)} '{which}' marks with its own keyword arguments; all '{which}' marks: {seen}")
                 continue
             elif kind == "out":
-                pos_r = len(records)
-                pos_m = len(w.marks)
-                n_ctx = len(made_ctx)
-                odd = op.get("odd") or {}
-                call_data = {"form": op["form"], "data": op["data"], "flags": op["flags"]}
-                if odd:
-                    call_data["odd"] = odd
-                    w.probe("outgoing_option_named_data_field")
-                await w.call_service("pyscript", f"out_{op['ctx']}", call_data)
-                await w.settle(0.1)
-                # exactly the given keyword parameters: a keyword that is not a call option (by name AND type) is data
-                exp = {**op["data"], **odd}
-                svc = "record"
-                if op["form"] == "entity_pos":
-                    exp = {"a": op["data"]["a"], "entity_id": "test.e1", **odd}
-                    svc = "record_one"
-                    w.probe("outgoing_entity_method")
-                elif op["form"] == "entity_kw":
-                    exp["entity_id"] = "test.e1"
-                    w.probe("outgoing_entity_method")
-                new = records[pos_r:]
-                sig = {"form": op["form"], "flags": "+".join(sorted(op["flags"])) or "none"}
-                if odd:
-                    sig["option_named_field"] = "+".join(sorted(odd))
-                if len(new) != 1 or new[0]["data"] != exp or new[0]["service"] != svc:
-                    viol("C12.outgoing_call", sig, f"{tag}: script call delivered {[(r['service'], r['data']) for r in new]}, expected "
-                                                   f"one call of test.{svc} with {exp}")
-                else:
-                    if "context" in op["flags"] and len(made_ctx) > n_ctx and new[0]["ctx"].id != made_ctx[-1].id:
-                        viol("C12.outgoing_call", {**sig, "what": "context"}, f"{tag}: the given context was not used")
-                    outs = [m for m in w.marks[pos_m:] if m["args"][0] == "out"]
-                    if op["flags"].get("return_response"):
-                        w.probe("outgoing_return_response")
-                        if not outs or outs[0]["raw_kw"].get("ret") != {"echo": exp}:
-                            viol("C12.outgoing_call", {**sig, "what": "response"},
-                                 f"{tag}: return_response=True gave {outs[0]['raw_kw'].get('ret') if outs else None!r}")
+                await do_out(op, tag)
                 continue
             await w.settle(0.2)
             w.gc_now()
@@ -1115,8 +1539,20 @@ def _run(scn: dict) -> dict:
             await check_all(tag)
             if state.get("leaked"):
                 return   # the run diverged: later consequences of the leaked registration are not judged
+        if spec.get("final_unload") and entry_loaded:
+            # whatever the history was: once the integration is unloaded nothing it registered may remain (a
+            # declaration counted once too often shows up here at the latest)
+            w.probe("final_unload")
+            await w.unload_entry()
+            for k in list(slots):
+                model_remove(*k)
+            entry_loaded = False
+            await w.settle(0.2)
+            w.gc_now()
+            await w.settle(0.2)
+            await check_all("end:unload")
 
-    if float(cfg.get("svc_params_delay_ms") or 0.0) > 0:
+    if float(cfg.get("svc_params_delay_ms") or 0.0) > 0 or any(cfg.get("svc_desc_delays_ms") or []):
         w.probe("slow_service_description_load")
     w.run(driver)
     if w.ha_exceptions:
@@ -1126,6 +1562,8 @@ def _run(scn: dict) -> dict:
 
 
 def _form_of(name: str) -> str:
+    if name.startswith("sh_"):
+        return "shared"
     for prefix, form in (("s", "default"), ("dup", "dup_names"), ("x", "explicit"), ("al", "two_names"), ("d", "two_decorators"), ("opt", "optional"),
                          ("only", "only")):
         if name.startswith(prefix) and name[len(prefix)].isdigit():
